@@ -229,4 +229,81 @@ def extendLabels {V : Type} (gen : Nat → Nat → V) (toSeed : V → Nat) (star
   let st : Stream := if cur ∈ file then Stream.fresh s else ⟨s, pos⟩
   s :: workerSeeds gen toSeed st ncpu
 
+/-! ### create_trial_data_file / extend_trial_data_file: the grid of signal strengths -/
+
+/-- the forms `mean_n_sig` / `mean_n_sig_null` may be given in -/
+inductive GridArg (F : Type) where
+  /-- a single number: only this value -/
+  | scalar (m : F)
+  /-- a 2-element sequence `(min, max)`: step 1 -/
+  | range2 (a b : F)
+  /-- a 3-element sequence `(min, max, step)` -/
+  | range3 (a b step : F)
+  /-- an ndarray: used as it is -/
+  | array (xs : List F)
+
+section grid
+variable {F : Type} [Add F] [Sub F] [Mul F] [Div F] [OfNat F 1]
+
+/-- `np.arange(start, stop, step, dtype=float64)`; `clen` is numpy's length rule
+`max(0, ceil((stop - start)/step))`, `ofN` the conversion of the index -/
+def arange (ofN : Nat → F) (clen : F → Nat) (start stop step : F) : List F :=
+  (List.range (clen ((stop - start) / step))).map (fun i => start + ofN i * step)
+
+/-- the array of signal strengths `create_trial_data_file` loops over -/
+def gridOf (ofN : Nat → F) (clen : F → Nat) : GridArg F → List F
+  | .scalar m => arange ofN clen m (m + 1) 1
+  | .range2 a b => arange ofN clen a (b + 1) 1
+  | .range3 a b st => arange ofN clen a (b + 1) st
+  | .array xs => xs
+
+end grid
+
+inductive FErr where
+  /-- `do_trials` with `n = 0` (`result_list[0]`) -/
+  | indexError
+  /-- `get_ncpu` -/
+  | valueError
+  /-- 'No trials have been generated! Check your generation boundaries!' -/
+  | runtimeError
+deriving DecidableEq, Repr
+
+section createFile
+variable {V D R G : Type}
+
+/-- the loop of `create_trial_data_file` over the grid points (`itertools.product` of the two
+grids, flattened here): one `do_trials` call per point, all on the same services; the first
+raising call ends it (post-state returned) -/
+def createLoop (gen : Nat → Nat → V) (toSeed : V → Nat) (cfgOf : G → TrialCfg V D R) (n ncpu : Nat)
+    (a : Nat) (ms : Option Nat) : List G → World → Except FErr (List (TrialOut D R)) × World
+  | [], w => (.ok [], w)
+  | g :: rest, w =>
+    match doTrials gen toSeed (cfgOf g) n ncpu w a ms with
+    | .error .valueError => (.error .valueError, w)
+    | .error .indexError => (.error .indexError, w)
+    | .ok r =>
+      match createLoop gen toSeed cfgOf n ncpu a ms rest r.world with
+      | (.ok rows, w') => (.ok (r.outs ++ rows), w')
+      | (.error e, w') => (.error e, w')
+
+/-- `create_trial_data_file`: no grid point at all is the `RuntimeError` -/
+def createFile (gen : Nat → Nat → V) (toSeed : V → Nat) (cfgOf : G → TrialCfg V D R) (n ncpu : Nat)
+    (a : Nat) (ms : Option Nat) (grid : List G) (w : World) : Except FErr (List (TrialOut D R)) × World :=
+  match createLoop gen toSeed cfgOf n ncpu a ms grid w with
+  | (.ok rows, w') => if grid.isEmpty then (.error .runtimeError, w') else (.ok rows, w')
+  | (.error e, w') => (.error e, w')
+
+/-- `extend_trial_data_file(ana, rss=a, n_trials, trial_data)`: reseed the caller's service when
+its seed occurs in the file, create the new rows, append their seed labels to the file -/
+def extendFile (gen : Nat → Nat → V) (toSeed : V → Nat) (cfgOf : G → TrialCfg V D R) (start n ncpu : Nat)
+    (a : Nat) (ms : Option Nat) (grid : List G) (file : List Nat) (w : World) :
+    Except FErr (List Nat × List (TrialOut D R)) × World :=
+  let cur := (w a).seed
+  let w0 := if cur ∈ file then w.set a (Stream.fresh (nextSeed start file)) else w
+  match createFile gen toSeed cfgOf n ncpu a ms grid w0 with
+  | (.ok rows, w') => (.ok (file ++ rows.map (fun o => o.seed), rows), w')
+  | (.error e, w') => (.error e, w')
+
+end createFile
+
 end Rng
